@@ -261,4 +261,149 @@ fn main() {
     );
     let dest = PathBuf::from(std::env::var("OUT_DIR").unwrap()).join("api_gen.rs");
     fs::write(dest, out).unwrap();
+    data_api(&dep);
+    command_api(&dep);
+}
+
+/// `pub fn` / `pub(crate) fn` names of the FIRST inherent `impl <Type> {` block of every data-structure
+/// source file (up to the closing `}` in column 0 or `#[cfg(test)]`), for `src/datax.rs`: a name that
+/// is in the source but not in its coverage map is reported by `./check C01` as
+/// `C01:coverage:data-fn-not-driven:<file>::<fn>`.
+fn data_api(dep: &str) {
+    let mut rows: Vec<(String, String)> = Vec::new();
+    for f in ["skiplist", "sorted_set", "list", "sds", "set", "hash"] {
+        let file = PathBuf::from(dep).join(format!("src/redis/data/{}.rs", f));
+        println!("cargo:rerun-if-changed={}", file.display());
+        let src = fs::read_to_string(&file).unwrap_or_else(|e| panic!("{}: {}", file.display(), e));
+        let mut inside = false;
+        for line in src.lines() {
+            let t = line.trim_start();
+            if t.starts_with("#[cfg(test)]") {
+                break;
+            }
+            if !inside {
+                if line.starts_with("impl") && !line.contains(" for ") && line.trim_end().ends_with('{') {
+                    inside = true;
+                }
+                continue;
+            }
+            if line.starts_with('}') {
+                break;
+            }
+            let after = if let Some(r) = t.strip_prefix("pub fn ") {
+                r
+            } else if let Some(r) = t.strip_prefix("pub(crate) fn ") {
+                r
+            } else if let Some(r) = t.strip_prefix("pub const fn ") {
+                r
+            } else {
+                continue;
+            };
+            let name: String = after.chars().take_while(|c| c.is_alphanumeric() || *c == '_').collect();
+            if !name.is_empty() {
+                rows.push((format!("{}.rs", f), name));
+            }
+        }
+        if !inside {
+            panic!("{}: no inherent `impl <Type> {{` block found — the data-structure source changed shape", file.display());
+        }
+    }
+    let body = rows.iter().map(|(f, n)| format!("({:?}, {:?})", f, n)).collect::<Vec<_>>().join(", ");
+    let out = format!("pub const DATA_PUB_FNS: &[(&str, &str)] = &[{}];\n", body);
+    let dest = PathBuf::from(std::env::var("OUT_DIR").unwrap()).join("data_api_gen.rs");
+    fs::write(dest, out).unwrap();
+}
+
+/// From `src/redis/command.rs`: the variants of `enum Command` and the variants listed in the
+/// `matches!` of `Command::is_read_only`; from `src/redis/executor/mod.rs`: the `pub fn`s of
+/// `impl CommandExecutor`.  `src/redisx.rs` / `src/c17.rs` compare them with what the harness drives
+/// and with the classification the binary computes (`C17:source:*`, `C01:coverage:executor-fn-*`).
+fn command_api(dep: &str) {
+    let file = PathBuf::from(dep).join("src/redis/command.rs");
+    println!("cargo:rerun-if-changed={}", file.display());
+    let src = fs::read_to_string(&file).unwrap_or_else(|e| panic!("{}: {}", file.display(), e));
+    // enum variants: lines indented by exactly 4 spaces inside `pub enum Command {`
+    let mut variants: Vec<String> = Vec::new();
+    let mut inside = false;
+    for line in src.lines() {
+        if line.starts_with("pub enum Command") {
+            inside = true;
+            continue;
+        }
+        if inside {
+            if line.starts_with('}') {
+                break;
+            }
+            if line.starts_with("    ") && !line.starts_with("     ") {
+                let t = line.trim_start();
+                let name: String = t.chars().take_while(|c| c.is_alphanumeric()).collect();
+                if !name.is_empty() && name.chars().next().unwrap().is_uppercase() {
+                    variants.push(name);
+                }
+            }
+        }
+    }
+    if variants.len() < 50 {
+        panic!("command.rs: only {} variants of `pub enum Command` found — the source changed shape", variants.len());
+    }
+    // is_read_only: everything between `pub fn is_read_only` and the next `pub fn`
+    let start = src.find("pub fn is_read_only").expect("command.rs: pub fn is_read_only not found");
+    let rest = &src[start + 10..];
+    let end = rest.find("pub fn ").unwrap_or(rest.len());
+    let body = &rest[..end];
+    let mut ro: Vec<String> = Vec::new();
+    // plain = nothing but `Command::X` / `Command::X(_, …)` / `Command::X { .. }` alternatives of one matches!
+    let mut plain = body.contains("matches!(");
+    let inner = body.split("matches!(").nth(1).unwrap_or("");
+    let inner = inner.split("\n        )").next().unwrap_or(inner);
+    for part in inner.split("Command::").skip(1) {
+        let name: String = part.chars().take_while(|c| c.is_alphanumeric()).collect();
+        let tail: String = part[name.len()..].split('|').next().unwrap_or("").chars().filter(|c| !c.is_whitespace()).collect();
+        let ok = matches!(tail.as_str(), "" | "(_)" | "(_,_)" | "(_,_,_)" | "(_,_,_,_)" | "(_,_,_,_,_)" | "{..}");
+        if !ok {
+            plain = false;
+        }
+        if !name.is_empty() {
+            ro.push(name);
+        }
+    }
+    if inner.split("Command::").count() != body.split("Command::").count() {
+        plain = false; // `Command::` outside the matches!: some other form of classification
+    }
+    // executor entry points
+    let file = PathBuf::from(dep).join("src/redis/executor/mod.rs");
+    println!("cargo:rerun-if-changed={}", file.display());
+    let src = fs::read_to_string(&file).unwrap_or_else(|e| panic!("{}: {}", file.display(), e));
+    let mut fns: Vec<String> = Vec::new();
+    let mut inside = false;
+    for line in src.lines() {
+        if line.starts_with("impl CommandExecutor") {
+            inside = true;
+            continue;
+        }
+        if inside && line.starts_with('}') {
+            inside = false;
+            continue;
+        }
+        if inside {
+            let t = line.trim_start();
+            if line.starts_with("    pub fn ") {
+                let name: String = t["pub fn ".len()..].chars().take_while(|c| c.is_alphanumeric() || *c == '_').collect();
+                fns.push(name);
+            }
+        }
+    }
+    if fns.len() < 5 {
+        panic!("executor/mod.rs: only {} pub fns of `impl CommandExecutor` found — the source changed shape", fns.len());
+    }
+    let list = |v: &Vec<String>| v.iter().map(|s| format!("{:?}", s)).collect::<Vec<_>>().join(", ");
+    let out = format!(
+        "pub const COMMAND_VARIANTS: &[&str] = &[{}];\npub const READ_ONLY_VARIANTS: &[&str] = &[{}];\npub const READ_ONLY_IS_PLAIN_LIST: bool = {};\npub const EXECUTOR_PUB_FNS: &[&str] = &[{}];\n",
+        list(&variants),
+        list(&ro),
+        plain,
+        list(&fns)
+    );
+    let dest = PathBuf::from(std::env::var("OUT_DIR").unwrap()).join("command_api_gen.rs");
+    fs::write(dest, out).unwrap();
 }
